@@ -166,6 +166,19 @@ def alreadyPresent (shnums : List Nat) (uebTotal : Option Nat) : Bool :=
   | none => false
   | some total => !((dedup shnums).length < total)
 
+/-- the same decision as a function of the servers' `get_buckets` answers, one (server, share number)
+pair per share file found: `_found_shares` is a *set of share numbers*, so a share number held by
+several servers counts once -/
+def presentOf (answers : List (Nat × Nat)) (uebTotal : Option Nat) : Bool :=
+  alreadyPresent (answers.map (·.2)) uebTotal
+
+/-- the tempting simplification "count the share files": NOT what the code does (see
+`Tahoe.C44.counting_files_counterexample`) -/
+def presentByFileCount (answers : List (Nat × Nat)) (uebTotal : Option Nat) : Bool :=
+  match uebTotal with
+  | none => false
+  | some total => !(answers.length < total)
+
 /-- `Helper.remote_upload_chk` / `_did_chk_check`: either results and no upload helper (nothing will be
 written), or an upload helper (existing active one, or a new one) -/
 inductive Answer
